@@ -207,8 +207,11 @@ impl World {
     }
 
     pub fn op(&mut self, words: &[&str]) -> String {
+        let before = crate::PANICS.load(std::sync::atomic::Ordering::SeqCst);
         let r = std::panic::catch_unwind(std::panic::AssertUnwindSafe(|| self.op_inner(words)));
         match r {
+            // a panic inside a task the library spawned does not unwind into the op: the hook counted it
+            Ok(s) if crate::PANICS.load(std::sync::atomic::Ordering::SeqCst) != before => format!("{} PANIC(in a spawned task)", s),
             Ok(s) => s,
             Err(_) => "PANIC".into(),
         }
@@ -288,6 +291,14 @@ impl World {
             }
             "wrerr" => {
                 self.pipes.entry(num(1).unwrap()).or_insert_with(Pipe::new).wrerr(err_kind(w.get(2).unwrap_or(&"BrokenPipe")));
+                "ok".into()
+            }
+            // yieldy p k [chunk]: pipe p hands out at most `chunk` bytes per read and, after every k reads that returned
+            // data, wakes the reader and returns Pending once although more data is there (k = 0: back to normal)
+            "yieldy" => {
+                let k = num(2).unwrap_or(0);
+                let chunk = num(3).filter(|c| *c > 0);
+                self.pipes.entry(num(1).unwrap()).or_insert_with(Pipe::new).set_yieldy(if k == 0 { None } else { Some(k) }, chunk);
                 "ok".into()
             }
             "credit" => {
@@ -537,6 +548,48 @@ impl World {
                 self.add_fut(f, vec![], fut)
             }
             // poll <f>: poll once; if the future woke ITSELF during the poll it is polled again
+            // pollx f: ONE poll of the future made from inside a tokio task whose cooperative budget is already used up
+            // (a consumer draining a backlog in a tight loop, a select! in a task that did other I/O in the same poll):
+            // anything in the library that consults tokio's coop budget yields now; then the usual `poll`
+            "pollx" => {
+                let f = num(1).unwrap();
+                let fu = match self.futs.get_mut(&f) {
+                    Some(x) => x,
+                    None => return "bad-op no-fut".into(),
+                };
+                let mut fut = match fu.fut.take() {
+                    Some(x) => x,
+                    None => return "done".into(),
+                };
+                let cnt = fu.wakes.clone();
+                let wk = waker(cnt.clone());
+                let res = self.rt.block_on(futures::future::poll_fn(|_outer| {
+                    // use the budget of THIS poll of the block_on future up
+                    let mut burn = Box::pin(async {
+                        loop {
+                            tokio::task::coop::consume_budget().await;
+                        }
+                    });
+                    let nw = futures::task::noop_waker();
+                    let mut ncx = Context::from_waker(&nw);
+                    let _ = burn.as_mut().poll(&mut ncx);
+                    let mut cx = Context::from_waker(&wk);
+                    Poll::Ready(fut.as_mut().poll(&mut cx))
+                }));
+                match res {
+                    Poll::Ready(s) => {
+                        drop(fut);
+                        return format!("ready {}", s);
+                    }
+                    Poll::Pending => {
+                        let after = cnt.0.load(Ordering::SeqCst);
+                        let fu = self.futs.get_mut(&f).unwrap();
+                        fu.fut = Some(fut);
+                        fu.wakes_at_return = after;
+                        return "pending".into();
+                    }
+                }
+            }
             "poll" => {
                 let f = num(1).unwrap();
                 let fu = match self.futs.get_mut(&f) {
